@@ -350,6 +350,9 @@ fire("C07", "index table not cumulative", "R3.concatenation",
 silent("C07", "__getitem__ made store-invariant (repairs the known finding)",
        ("sub", "molgrid.py", "                self.weights[s_ind:f_ind],\n", "                self._atweights[s_ind:f_ind],\n"))
 
+fire("C07", "default radial grid of one atom reused for the following atoms", "R5.no-loop-carried-per-atom-state",
+     ("sub", "molgrid.py", "            if rgrid is None:\n                rad_grid = _generate_default_rgrid(atnum)\n            else:\n                rad_grid = rgrid\n",
+      "            if rgrid is None:\n                rgrid = _generate_default_rgrid(atnum)\n            rad_grid = rgrid\n"))
 # ------------------------------------------------------------------------------------------ C11
 fire("C11", "reintroduce: signed plane spacing in 1D", "R2.spacings-nonnegative",
      ("sub", "periodicgrid.py", "            spacings = np.abs(1 / self._recivecs)\n", "            spacings = 1 / self._recivecs\n"))
@@ -392,6 +395,9 @@ fire("C14", "row of the wrong width in 2D", "R2.order-rows",
      ("sub", "utils.py", "                orders.append([m_x, order - m_x])\n", "                orders.append([m_x, order - m_x, 0])\n"))
 fire("C14", "a moment type no longer computes its integral", "R3.moment-type-computed",
      ("sub", "basegrid.py", "                elif type_mom == \"radial\":\n                    cent_pts_with_order", "                elif type_mom == \"Radial\":\n                    cent_pts_with_order"))
+fire("C14", "Cartesian powers taken column by column for three columns only", "R4.cartesian-dimension-generic",
+     ("sub", "basegrid.py", "                cent_pts_with_order = centered_pts ** all_orders[:, None]\n",
+      "                x_c, y_c, z_c = centered_pts.T\n                cent_pts_with_order = centered_pts ** all_orders[:, None]\n"))
 silent("C14", "modern spelling of an integer dtype",
        ("sub", "utils.py", "    orders = np.array(orders, dtype=int)\n    return orders\n", "    orders = np.array(orders, dtype=np.int64)\n    return orders\n"))
 
@@ -408,6 +414,9 @@ fire("C18", "partial weight products skip the first domain instead of the last",
      ("sub", "ngrid.py", "                    *[grid.weights for grid in self.grid_list[:-1]]\n", "                    *[grid.weights for grid in self.grid_list[1:]]\n"))
 fire("C18", "size counts one domain too few", "R4.size-repeated",
      ("sub", "ngrid.py", "            return self.grid_list[0].size ** self.num_domains\n", "            return self.grid_list[0].size ** (self.num_domains - 1)\n"))
+fire("C18", "weights enumerated through a default (xy) meshgrid", "R1.properties-lockstep",
+     ("sub", "ngrid.py", "        # Yield the product of weights for each combination\n        return (np.prod(combination) for combination in weight_combinations)\n",
+      "        mesh = np.meshgrid(*[g.weights for g in self.grid_list], sparse=True)\n        return iter(np.prod(mesh, axis=0).ravel())\n"))
 silent("C18", "local renamed in the points property",
        ("sub", "ngrid.py", "            points_combinations = itertools.product(*[grid.points for grid in self.grid_list])\n\n        return points_combinations\n",
         "            combos = itertools.product(*[grid.points for grid in self.grid_list])\n            return combos\n\n        return points_combinations\n"))
